@@ -360,6 +360,13 @@ def rule_c(ctx):
             if e.kind == 'store' and e.data['target'][0] == 'local' and e.data.get('aug') == 'Add' and \
                     e.data['value'].is_const() and e.data['value'].const == 1:
                 inc_ok = True
+            # the same advance spelled `counter = counter + 1` (constant-folded to the next integer on the path)
+            if e.kind == 'store' and e.data['target'][0] == 'local' and not e.data.get('aug') and \
+                    isinstance(e.node, ast.Assign) and isinstance(e.node.value, ast.BinOp) and \
+                    isinstance(e.node.value.op, ast.Add) and isinstance(e.node.targets[0], ast.Name) and \
+                    isinstance(e.node.value.left, ast.Name) and e.node.value.left.id == e.node.targets[0].id and \
+                    isinstance(e.node.value.right, ast.Constant) and e.node.value.right.value == 1:
+                inc_ok = True
     rep.add('C13.c', 'StreamControl.allocate_stream / one attempt per advance', alloc, inc_ok,
             'the attempt counter advances by 1 per cursor advance' if inc_ok else
             'the attempt counter does not advance by exactly 1 per iteration')
